@@ -9,6 +9,7 @@
   `_ok` corollaries take "the run returned `.ok`" as a hypothesis.
 -/
 import Grenad.Proofs.SorterSteps
+import Grenad.Proofs.Wave3Sorter
 
 namespace Grenad.Props.C07
 
@@ -236,3 +237,460 @@ open Grenad.Props.C07
 #print axioms C07_keys
 #print axioms C07_any_order
 end Axioms
+
+/-!
+  ## Assembly (wave 3): exits, chunk files, configuration independence, totality
+
+  `Wave3.Inserted mf cfg kvs s`  : `s` is reached by `Sorter.new cfg` and the inserts of `kvs`;
+  `Wave3.Handed mf cfg kvs s'`   : `s'` is `finishChunks` of such a state — `s'.chunks` are the
+                                   chunk cursors handed out;
+  `Wave3.Admissible cd wcfg`     : the configuration hypotheses of `C01_roundtrip`;
+  `Wave3.SizesOk es`             : its size hypotheses on the input (lengths `< 2^32`, fewer than
+                                   `2^64` pairs);
+  `Wave3.RoundTrips cd wcfg es`  : its conclusion (the run succeeds; under the two output-size
+                                   side conditions the file opens, counts `es.length` and scans
+                                   back to exactly `es`, forwards and backwards).
+-/
+namespace Grenad.Props.C07
+
+open Grenad Grenad.Wave3
+
+/-- `runAll` is "insert everything, then `finish`". -/
+theorem runAll_eq_runAllI (mf : MergeFn) (kvs : List Entry) :
+    ∀ s, runAll mf s kvs = runAllI mf s kvs := by
+  induction kvs with
+  | nil => intro s; rfl
+  | cons e r ih =>
+    intro s
+    obtain ⟨k, v⟩ := e
+    simp only [runAll, runAllI, Sorter.insertAll]
+    cases Sorter.insert mf s k v with
+    | error e => rfl
+    | ok s' => exact ih s'
+
+/-- **`runAll` (C07) and `Sorter.program` (C08/C17) are two formulations of the same run**:
+    `runAll` from the state returned by `Sorter.new cfg` is `program mf cfg kvs true` (new, the
+    inserts, `finishChunks`) followed by the merge of the chunks handed out. -/
+theorem C07_runAll_eq_program (mf : MergeFn) (cfg : SCfg) (s0 : Sorter)
+    (hnew : Sorter.new cfg = .ok s0) (kvs : List Entry) :
+    runAll mf s0 kvs = match Sorter.program mf cfg kvs true with
+      | .error e => .error e
+      | .ok s' =>
+        match Merger.run mf s'.chunks with
+        | (none, _) => .error .merge
+        | (some out, m) => .ok (out, { s' with calls := s'.calls ++ m.calls.reverse }) := by
+  rw [runAll_eq_runAllI, runAllI_eq_program hnew]
+  rfl
+
+/-! ### C07_exits -/
+
+/-- **(b) as an explicit theorem**: `finish` is `finishChunks` followed by the merge, with the
+    same merge function, of the chunks handed out.  For ANY merge function and ANY state. -/
+theorem C07_finish_is_merge_of_chunks (mf : MergeFn) (s s' : Sorter) (out : List Entry)
+    (h : Sorter.finishChunks mf s = .ok s') :
+    (Merger.run mf s'.chunks).1 = some out ↔ ∃ s'', Sorter.finish mf s = .ok (out, s'') := by
+  rw [finish_eq, h]
+  constructor
+  · intro hr; exact ⟨_, finalMerge_ok_iff.mpr ⟨hr, rfl⟩⟩
+  · rintro ⟨s'', h⟩; exact (finalMerge_ok_iff.mp h).1
+
+/-- … and the returned state only differs by the recorded merge calls. -/
+theorem C07_finish_state (mf : MergeFn) (s s' s'' : Sorter) (out : List Entry)
+    (h : Sorter.finishChunks mf s = .ok s') (hf : Sorter.finish mf s = .ok (out, s'')) :
+    s'' = { s' with calls := s'.calls ++ (Merger.run mf s'.chunks).2.calls.reverse } := by
+  rw [finish_eq, h] at hf
+  exact (finalMerge_ok_iff.mp hf).2
+
+/-- `finish` reports a merge error exactly when merging the handed-out chunks does. -/
+theorem C07_finish_err (mf : MergeFn) (s s' : Sorter) (h : Sorter.finishChunks mf s = .ok s') :
+    (Merger.run mf s'.chunks).1 = none ↔ Sorter.finish mf s = .error .merge := by
+  rw [finish_eq, h]
+  unfold finalMerge
+  cases hr : Merger.run mf s'.chunks with
+  | mk o m => cases o <;> simp [hr]
+
+/-- `finish` fails in `finishChunks` or in the final merge, never otherwise. -/
+theorem C07_finish_err_chunks (mf : MergeFn) (s : Sorter) (e : Sorter.SErr)
+    (h : Sorter.finishChunks mf s = .error e) : Sorter.finish mf s = .error e := by
+  rw [finish_eq, h]
+
+/-- **C07_exits.**  A run `runAll (tot mf') s0 kvs = .ok (out, sfin)` from a fresh sorter.  The
+    same content `out` is obtained
+    (a) by streaming: `out` is the output of `Sorter.finish` on the state reached by the inserts;
+    (b) by merging, with the same merge function, the chunk cursors handed out by
+        `finishChunks` (`Handed`): `Merger.run` on them returns `out`, which is the grouped union
+        `Spec.mergeSpec mf' s'.chunks` of the chunks;
+    (c) by writing `out` into a writer of ANY admissible configuration and scanning the file:
+        `out` is strictly ascending, so (`C01_roundtrip`) the writer accepts it and the file
+        scans back to exactly `out`.
+    No law on the merge function is needed. -/
+theorem C07_exits (mf' : Bytes → List Bytes → Bytes) (cfg : SCfg) (s0 : Sorter)
+    (hnew : Sorter.new cfg = .ok s0) (kvs : List Entry) (out : List Entry) (sfin : Sorter)
+    (hrun : runAll (tot mf') s0 kvs = .ok (out, sfin)) :
+    (∃ s, Inserted (tot mf') cfg kvs s ∧ Sorter.finish (tot mf') s = .ok (out, sfin)) ∧
+    (∃ s', Handed (tot mf') cfg kvs s' ∧ (Merger.run (tot mf') s'.chunks).1 = some out ∧
+      out = Spec.mergeSpec mf' s'.chunks ∧
+      sfin = { s' with calls := s'.calls ++ (Merger.run (tot mf') s'.chunks).2.calls.reverse }) ∧
+    StrictAsc out ∧
+    (∀ cd wcfg, Admissible cd wcfg → SizesOk out → RoundTrips cd wcfg out) := by
+  rw [runAll_eq_runAllI] at hrun
+  unfold runAllI at hrun
+  cases hi : Sorter.insertAll (tot mf') s0 kvs with
+  | error e => rw [hi] at hrun; cases hrun
+  | ok s =>
+    rw [hi] at hrun
+    simp only at hrun
+    have hins : Inserted (tot mf') cfg kvs s := ⟨s0, hnew, hi⟩
+    have hfin := hrun
+    rw [finish_eq] at hrun
+    cases hf : Sorter.finishChunks (tot mf') s with
+    | error e => rw [hf] at hrun; cases hrun
+    | ok s' =>
+      rw [hf] at hrun
+      simp only at hrun
+      obtain ⟨hr, hs⟩ := finalMerge_ok_iff.mp hrun
+      have hh : Handed (tot mf') cfg kvs s' := ⟨s, hins, hf⟩
+      have hasc : AllAsc s'.chunks :=
+        (handed_inv (pkeys_inv mf' _ stableSrt_oracle) pkeys_init hh).1
+      have hout : out = Spec.mergeSpec mf' s'.chunks := by
+        have := run_total mf' s'.chunks hasc
+        rw [hr] at this
+        exact Option.some.inj this
+      have hoasc : StrictAsc out := by rw [hout, mergeSpec_eq_G]; exact G_asc mf' _
+      exact ⟨⟨s, hins, hfin⟩, ⟨s', hh, hr, hout, hs⟩, hoasc,
+        fun cd wcfg A hsz => roundTrips A hoasc hsz⟩
+
+/-- The size hypotheses on `out` follow from those on what was inserted and on the merged
+    values: keys shorter than `2^32`, fewer than `2^64` inserts, merged values shorter than
+    `2^32`. -/
+theorem C07_out_sizes (mf' : Bytes → List Bytes → Bytes) (cfg : SCfg) (s0 : Sorter)
+    (hnew : Sorter.new cfg = .ok s0) (kvs : List Entry) (out : List Entry) (sfin : Sorter)
+    (hrun : runAll (tot mf') s0 kvs = .ok (out, sfin))
+    (hk : ∀ kv ∈ kvs, kv.1.length < 2 ^ 32) (hv : ∀ e ∈ out, e.2.length < 2 ^ 32)
+    (hn : kvs.length < 2 ^ 64) : SizesOk out := by
+  obtain ⟨h1, h2⟩ := C07_keys_ok mf' cfg s0 hnew kvs out sfin hrun
+  exact sizes_of_keys h1 (fun k hk' => (h2 k).mp hk') hk hv hn
+
+/-! ### C07_chunk_files -/
+
+/-- Every chunk of a reachable sorter state (`Reach`, as in C08/C17) is strictly ascending —
+    for ANY merge function, failing or not (a run that got that far made only successful merge
+    calls, so it is also a run of the totalised merge function). -/
+theorem C07_chunks_asc (mf : MergeFn) {cfg : SCfg}
+    {P : Bytes → Bytes → Prop} {s : Sorter} {sp mg : Nat}
+    (r : Sorter.Reach mf cfg P s sp mg) : ∀ c ∈ s.chunks, StrictAsc c := by
+  obtain ⟨kvs, h, -⟩ := reach_inserted r
+  exact fun c hc => (inserted_chunk_any h hc).1
+
+/-- … because it is the grouped-and-merged image of some sequence of pairs, with inserted keys
+    only. -/
+theorem C07_chunk_shape (mf' : Bytes → List Bytes → Bytes) {cfg : SCfg} {kvs : List Entry}
+    {s : Sorter} (h : Inserted (tot mf') cfg kvs s) :
+    ∀ c ∈ s.chunks, StrictAsc c ∧
+      (∃ S, c = (Spec.group S).map (fun (k, vs) => (k, mf' k vs))) ∧
+      ∀ k, k ∈ c.map (·.1) → k ∈ kvs.map (·.1) :=
+  fun _ hc => inserted_chunk h hc
+
+/-- **C07_chunk_files.**  Each chunk cursor handed out by `finishChunks` holds a strictly
+    ascending list — the grouped-and-merged image of some of the inserted pairs — and therefore
+    round-trips through a chunk file of ANY admissible chunk configuration (codec, block size,
+    index levels, interval), which is what justifies modelling a chunk as the list it holds.
+    Sizes: inserted keys shorter than `2^32`, fewer than `2^64` inserts, and the merged values
+    held by the chunk shorter than `2^32`. -/
+theorem C07_chunk_files (mf' : Bytes → List Bytes → Bytes) (cfg : SCfg) (kvs : List Entry)
+    (s' : Sorter) (h : Handed (tot mf') cfg kvs s')
+    (hk : ∀ kv ∈ kvs, kv.1.length < 2 ^ 32) (hn : kvs.length < 2 ^ 64) :
+    ∀ c ∈ s'.chunks, StrictAsc c ∧
+      (∃ S, c = (Spec.group S).map (fun (k, vs) => (k, mf' k vs))) ∧
+      ((∀ e ∈ c, e.2.length < 2 ^ 32) →
+        ∀ cd wcfg, Admissible cd wcfg → RoundTrips cd wcfg c) := by
+  intro c hc
+  have hf := handed_chunk h hc
+  exact ⟨hf.1, hf.2.1, fun hv cd wcfg A => roundTrips A hf.1 (chunk_sizes hf hk hv hn)⟩
+
+/-- The same for the chunks a sorter holds between two public calls (the files `merge_chunks`
+    reads back). -/
+theorem C07_chunk_files_live (mf' : Bytes → List Bytes → Bytes) (cfg : SCfg) (kvs : List Entry)
+    (s : Sorter) (h : Inserted (tot mf') cfg kvs s)
+    (hk : ∀ kv ∈ kvs, kv.1.length < 2 ^ 32) (hn : kvs.length < 2 ^ 64) :
+    ∀ c ∈ s.chunks, StrictAsc c ∧
+      ((∀ e ∈ c, e.2.length < 2 ^ 32) →
+        ∀ cd wcfg, Admissible cd wcfg → RoundTrips cd wcfg c) := by
+  intro c hc
+  have hf := inserted_chunk h hc
+  exact ⟨hf.1, fun hv cd wcfg A => roundTrips A hf.1 (chunk_sizes hf hk hv hn)⟩
+
+/-- `C07_chunk_files` for an arbitrary (possibly failing) merge function: whenever
+    `finishChunks` hands chunks out, each is strictly ascending, has inserted keys only, and
+    round-trips through a chunk file of any admissible configuration. -/
+theorem C07_chunk_files_any (mf : MergeFn) (cfg : SCfg) (kvs : List Entry)
+    (s' : Sorter) (h : Handed mf cfg kvs s')
+    (hk : ∀ kv ∈ kvs, kv.1.length < 2 ^ 32) (hn : kvs.length < 2 ^ 64) :
+    ∀ c ∈ s'.chunks, StrictAsc c ∧ (∀ k, k ∈ c.map (·.1) → k ∈ kvs.map (·.1)) ∧
+      ((∀ e ∈ c, e.2.length < 2 ^ 32) →
+        ∀ cd wcfg, Admissible cd wcfg → RoundTrips cd wcfg c) := by
+  intro c hc
+  have hf := handed_chunk_any h hc
+  exact ⟨hf.1, hf.2.2, fun hv cd wcfg A => roundTrips A hf.1 (chunk_sizes hf hk hv hn)⟩
+
+/-- With a lawful merge function the handed-out chunks are the images of consecutive parts of
+    the insert sequence (up to each key's value list, which is what `G` depends on). -/
+theorem C07_chunks_are_parts (mf' : Bytes → List Bytes → Bytes) (law : MergeLaw mf') (cfg : SCfg)
+    (kvs : List Entry) (s' : Sorter) (h : Handed (tot mf') cfg kvs s') :
+    ∃ parts : List (List Entry),
+      s'.chunks = parts.map (fun S => (Spec.group S).map (fun (k, vs) => (k, mf' k vs))) ∧
+      ∀ k, insertedFor k parts.flatten = insertedFor k kvs := by
+  obtain ⟨parts, h1, h2⟩ :=
+    handed_inv (pcontent_inv mf' law valRel_eq stableSrt (fun s k => valsOf_sortStable k _))
+      (init_content mf' _ valRel_eq) h
+  refine ⟨parts, h1, fun k => ?_⟩
+  have := h2 k
+  rw [List.append_nil] at this
+  exact this
+
+/-! ### C07_config_independent, C07_total -/
+
+theorem okOr_no_trap {α : Type} {r : Except Sorter.SErr α} {Q : α → Prop} (h : OkOr r Q)
+    (hnt : ∀ t, r ≠ .error (.trap t)) : ∃ a, r = .ok a ∧ Q a := by
+  cases r with
+  | ok a => exact ⟨a, rfl, h⟩
+  | error e =>
+    cases e with
+    | trap t => exact absurd rfl (hnt t)
+    | merge => exact h.elim
+
+/-- **C07_config_independent.**  Two sorter configurations — any budgets, reallocation policies,
+    chunk limits, initial sizes — for which `Sorter.new` succeeds and no `Entries` trap occurs,
+    and a lawful merge function: `runAll` over the same inserts returns the same output (the
+    grouped merge of the inserts), whatever each run spilled and merged on the way. -/
+theorem C07_config_independent (mf' : Bytes → List Bytes → Bytes) (law : MergeLaw mf')
+    (cfg₁ cfg₂ : SCfg) (s₁ s₂ : Sorter) (h₁ : Sorter.new cfg₁ = .ok s₁)
+    (h₂ : Sorter.new cfg₂ = .ok s₂) (kvs : List Entry)
+    (nt₁ : ∀ t, runAll (tot mf') s₁ kvs ≠ .error (.trap t))
+    (nt₂ : ∀ t, runAll (tot mf') s₂ kvs ≠ .error (.trap t)) :
+    ∃ out t₁ t₂, runAll (tot mf') s₁ kvs = .ok (out, t₁) ∧
+      runAll (tot mf') s₂ kvs = .ok (out, t₂) ∧
+      out = (Spec.group kvs).map (fun (k, vs) => (k, mf' k vs)) := by
+  obtain ⟨⟨o1, t1⟩, e1, q1⟩ := okOr_no_trap (C07_stable mf' law cfg₁ s₁ h₁ kvs) nt₁
+  obtain ⟨⟨o2, t2⟩, e2, q2⟩ := okOr_no_trap (C07_stable mf' law cfg₂ s₂ h₂ kvs) nt₂
+  simp only at q1 q2
+  subst q1
+  exact ⟨_, t1, t2, e1, by rw [e2, q2], rfl⟩
+
+/-- Hypothesis form: two runs that returned `.ok` returned the same output. -/
+theorem C07_config_independent_ok (mf' : Bytes → List Bytes → Bytes) (law : MergeLaw mf')
+    (cfg₁ cfg₂ : SCfg) (s₁ s₂ : Sorter) (h₁ : Sorter.new cfg₁ = .ok s₁)
+    (h₂ : Sorter.new cfg₂ = .ok s₂) (kvs : List Entry) (o₁ o₂ : List Entry) (t₁ t₂ : Sorter)
+    (r₁ : runAll (tot mf') s₁ kvs = .ok (o₁, t₁)) (r₂ : runAll (tot mf') s₂ kvs = .ok (o₂, t₂)) :
+    o₁ = o₂ := by
+  rw [C07_stable_ok mf' law cfg₁ s₁ h₁ kvs o₁ t₁ r₁, C07_stable_ok mf' law cfg₂ s₂ h₂ kvs o₂ t₂ r₂]
+
+/-- **`C17_no_trap`, restated for `runAll`** (any merge function): under the hypotheses of
+    `C17_no_trap` no call of the run traps; the only possible error is `SErr.merge`. -/
+theorem C07_no_trap (mf : MergeFn) (cfg : SCfg) (s0 : Sorter) (hnew : Sorter.new cfg = .ok s0)
+    (kvs : List Entry)
+    (hT : cfg.allowRealloc = true → cfg.budget ≤ 2 ^ 62 - 2 ^ 34)
+    (hl : ∀ kv ∈ kvs, kv.1.length ≤ u32Max ∧ kv.2.length ≤ u32Max) (t : Trap) :
+    runAll mf s0 kvs ≠ .error (.trap t) := by
+  rw [runAll_eq_runAllI]
+  exact runAllI_no_trap mf hnew kvs hT hl t
+
+/-- With a merge function that never fails a run returns `.ok` (no law needed): the
+    hypothesis `hrun` of `C17_total` is discharged by `Wave3.run_isSome_of_total`. -/
+theorem C07_returns_ok (mf : MergeFn) (hmf : ∀ k vs, (mf k vs).isSome) (cfg : SCfg)
+    (kvs : List Entry) (h0 : 0 < Sorter.cap0 cfg) (h1 : Sorter.cap0 cfg + 15 < 2 ^ 63)
+    (hT : cfg.allowRealloc = true → cfg.budget ≤ 2 ^ 62 - 2 ^ 34)
+    (hl : ∀ kv ∈ kvs, kv.1.length ≤ u32Max ∧ kv.2.length ≤ u32Max) :
+    ∃ s0 r, Sorter.new cfg = .ok s0 ∧ runAll mf s0 kvs = .ok r := by
+  obtain ⟨s0, hnew⟩ := Sorter.new_no_trap h0 h1
+  obtain ⟨s', hp⟩ := Sorter.program_total mf cfg kvs true hmf (run_isSome_of_total hmf) h0 h1 hT hl
+  have : ∃ r, runAll mf s0 kvs = .ok r := by
+    rw [C07_runAll_eq_program mf cfg s0 hnew, hp]
+    simp only
+    have := run_isSome_of_total hmf s'.chunks
+    cases hr : Merger.run mf s'.chunks with
+    | mk o m =>
+      rw [hr] at this
+      cases o with
+      | none => cases this
+      | some out => exact ⟨_, rfl⟩
+  obtain ⟨r, hr⟩ := this
+  exact ⟨s0, r, hnew, hr⟩
+
+/-- **C07_total.**  Under the hypotheses of `C17_no_trap` / `C17_total` (first capacity non-zero
+    and below `2^63 - 15`; keys and values at most `u32::MAX` bytes; if reallocation is allowed,
+    budget at most `2^62 - 2^34`) and a total lawful merge function, the `OkOr` disjunction of
+    `C07_stable` collapses to its `.ok` case: `Sorter.new` succeeds and `runAll` returns `.ok`
+    with the grouped merge of the inserts. -/
+theorem C07_total (mf' : Bytes → List Bytes → Bytes) (law : MergeLaw mf') (cfg : SCfg)
+    (kvs : List Entry) (h0 : 0 < Sorter.cap0 cfg) (h1 : Sorter.cap0 cfg + 15 < 2 ^ 63)
+    (hT : cfg.allowRealloc = true → cfg.budget ≤ 2 ^ 62 - 2 ^ 34)
+    (hl : ∀ kv ∈ kvs, kv.1.length ≤ u32Max ∧ kv.2.length ≤ u32Max) :
+    ∃ s0 out sfin, Sorter.new cfg = .ok s0 ∧ runAll (tot mf') s0 kvs = .ok (out, sfin) ∧
+      out = (Spec.group kvs).map (fun (k, vs) => (k, mf' k vs)) := by
+  obtain ⟨s0, hnew⟩ := Sorter.new_no_trap h0 h1
+  obtain ⟨⟨out, sfin⟩, e, q⟩ := okOr_no_trap (C07_stable mf' law cfg s0 hnew kvs)
+    (C07_no_trap (tot mf') cfg s0 hnew kvs hT hl)
+  exact ⟨s0, out, sfin, hnew, e, q⟩
+
+/-- `C07_config_independent` with the traps excluded by the hypotheses of `C17_no_trap` on both
+    configurations. -/
+theorem C07_config_independent_total (mf' : Bytes → List Bytes → Bytes) (law : MergeLaw mf')
+    (cfg₁ cfg₂ : SCfg) (kvs : List Entry)
+    (h0₁ : 0 < Sorter.cap0 cfg₁) (h1₁ : Sorter.cap0 cfg₁ + 15 < 2 ^ 63)
+    (hT₁ : cfg₁.allowRealloc = true → cfg₁.budget ≤ 2 ^ 62 - 2 ^ 34)
+    (h0₂ : 0 < Sorter.cap0 cfg₂) (h1₂ : Sorter.cap0 cfg₂ + 15 < 2 ^ 63)
+    (hT₂ : cfg₂.allowRealloc = true → cfg₂.budget ≤ 2 ^ 62 - 2 ^ 34)
+    (hl : ∀ kv ∈ kvs, kv.1.length ≤ u32Max ∧ kv.2.length ≤ u32Max) :
+    ∃ s₁ s₂ out t₁ t₂, Sorter.new cfg₁ = .ok s₁ ∧ Sorter.new cfg₂ = .ok s₂ ∧
+      runAll (tot mf') s₁ kvs = .ok (out, t₁) ∧ runAll (tot mf') s₂ kvs = .ok (out, t₂) := by
+  obtain ⟨s₁, o₁, t₁, n₁, r₁, q₁⟩ := C07_total mf' law cfg₁ kvs h0₁ h1₁ hT₁ hl
+  obtain ⟨s₂, o₂, t₂, n₂, r₂, q₂⟩ := C07_total mf' law cfg₂ kvs h0₂ h1₂ hT₂ hl
+  exact ⟨s₁, s₂, o₁, t₁, t₂, n₁, n₂, r₁, by rw [q₁, ← q₂]; exact r₂⟩
+
+/-! ### Concrete instances (wave 3) -/
+
+/-- A second configuration: a growing buffer (32 → 128 bytes, budget 100), up to 5 chunks.  On
+    `exKvs` it never spills before `finish`, whereas `exCfg` spills three times and merges once. -/
+def exCfg2 : SCfg :=
+  { threshold := 100, minMemory := 100, initialSize := 32, allowRealloc := true, maxChunks := 5 }
+
+#guard (Sorter.program (tot exConcat) exCfg2 exKvs true).toOption.map (fun s => s.chunks.length)
+  = some 1
+#guard (Sorter.program (tot exConcat) exCfg exKvs true).toOption.map (fun s => s.chunks)
+  = some [[([1], [10, 11]), ([2], [20, 21, 22]), ([3], [30])], [([1], [12])]]
+
+/-- The hypotheses of `C07_total` hold for `exCfg`, `exCfg2` and `exKvs`. -/
+theorem exHyps : 0 < Sorter.cap0 exCfg ∧ Sorter.cap0 exCfg + 15 < 2 ^ 63 ∧
+    (exCfg.allowRealloc = true → exCfg.budget ≤ 2 ^ 62 - 2 ^ 34) ∧
+    0 < Sorter.cap0 exCfg2 ∧ Sorter.cap0 exCfg2 + 15 < 2 ^ 63 ∧
+    (exCfg2.allowRealloc = true → exCfg2.budget ≤ 2 ^ 62 - 2 ^ 34) ∧
+    ∀ kv ∈ exKvs, kv.1.length ≤ u32Max ∧ kv.2.length ≤ u32Max := by decide
+
+/-- `C07_total` on the instance: the run returns `.ok`, with the grouped merge. -/
+theorem exTotal : ∃ out sfin, runAll (tot exConcat) exS0 exKvs = .ok (out, sfin) ∧
+    out = [([1], [10, 11, 12]), ([2], [20, 21, 22]), ([3], [30])] := by
+  obtain ⟨s0, out, sfin, h1, h2, h3⟩ := C07_total exConcat exConcat_law exCfg exKvs
+    exHyps.1 exHyps.2.1 exHyps.2.2.1 exHyps.2.2.2.2.2.2
+  rw [exNew] at h1
+  cases h1
+  exact ⟨out, sfin, h2, by rw [h3]; decide⟩
+
+/-- An admissible writer configuration: no compression, 28-byte blocks, two index levels,
+    interval 2 (the one of the C01 instance). -/
+def exWCfg : WCfg := { blockSize := 0, minBlock := 28, interval := 2, levels := 2 }
+
+theorem exAdm : Admissible Codec.none exWCfg := ⟨fun _ => rfl, by decide, by decide, by decide⟩
+
+/-- `C07_exits` on the instance: the three exits give `[1 ↦ 10 11 12, 2 ↦ 20 21 22, 3 ↦ 30]`. -/
+example : ∃ out sfin, runAll (tot exConcat) exS0 exKvs = .ok (out, sfin) ∧
+    out = [([1], [10, 11, 12]), ([2], [20, 21, 22]), ([3], [30])] ∧
+    (∃ s, Inserted (tot exConcat) exCfg exKvs s ∧
+      Sorter.finish (tot exConcat) s = .ok (out, sfin)) ∧
+    (∃ s', Handed (tot exConcat) exCfg exKvs s' ∧
+      (Merger.run (tot exConcat) s'.chunks).1 = some out) ∧
+    RoundTrips Codec.none exWCfg out := by
+  obtain ⟨out, sfin, hrun, hout⟩ := exTotal
+  obtain ⟨ha, ⟨s', hh, hr, -, -⟩, -, hc⟩ := C07_exits exConcat exCfg exS0 exNew exKvs out sfin hrun
+  refine ⟨out, sfin, hrun, hout, ha, ⟨s', hh, hr⟩, hc _ _ exAdm ?_⟩
+  rw [hout]
+  exact ⟨by decide, by decide⟩
+
+/-- `C07_out_sizes` on the instance. -/
+example : ∃ out sfin, runAll (tot exConcat) exS0 exKvs = .ok (out, sfin) ∧ SizesOk out := by
+  obtain ⟨out, sfin, hrun, hout⟩ := exTotal
+  exact ⟨out, sfin, hrun, C07_out_sizes exConcat exCfg exS0 exNew exKvs out sfin hrun
+    (by decide) (by rw [hout]; decide) (by decide)⟩
+
+/-- A key-sorted input (so that the kernel can evaluate the run: the stable sort is the
+    identity), seven pairs on four keys; with `exCfg` it spills twice, merges the two chunks,
+    and the final spill adds a second chunk. -/
+def exSorted : List Entry :=
+  [([1], [10]), ([1], [11]), ([2], [20]), ([2], [21]), ([3], [30]), ([3], [31]), ([4], [40])]
+
+/-- The chunks handed out for `exSorted`. -/
+theorem exHanded : ∃ s', Handed (tot exConcat) exCfg exSorted s' ∧
+    s'.chunks = [[([1], [10, 11]), ([2], [20, 21]), ([3], [30, 31])], [([4], [40])]] := by
+  have e := Sorter.program_eq_programW (tot exConcat) exCfg exSorted true
+    (by unfold Sorter.KeySorted; decide +kernel)
+  have v : (Sorter.programW (tot exConcat) exCfg exSorted true).toOption.map (·.chunks) =
+      some [[([1], [10, 11]), ([2], [20, 21]), ([3], [30, 31])], [([4], [40])]] := by
+    decide +kernel
+  rw [← e] at v
+  cases h : Sorter.program (tot exConcat) exCfg exSorted true with
+  | error err => rw [h] at v; simp [Except.toOption] at v
+  | ok s' =>
+    rw [h] at v
+    simp only [Except.toOption, Option.map_some, Option.some.injEq] at v
+    exact ⟨s', handed_iff_program.mpr h, v⟩
+
+/-- `C07_chunk_files` on the instance: both handed-out chunks round-trip through a chunk file of
+    configuration `exWCfg`. -/
+example : ∃ s', Handed (tot exConcat) exCfg exSorted s' ∧ s'.chunks.length = 2 ∧
+    ∀ c ∈ s'.chunks, StrictAsc c ∧ RoundTrips Codec.none exWCfg c := by
+  obtain ⟨s', hh, hc⟩ := exHanded
+  have hv : ∀ c ∈ [[(([1], [10, 11]) : Entry), ([2], [20, 21]), ([3], [30, 31])], [([4], [40])]],
+      ∀ e ∈ c, e.2.length < 2 ^ 32 := by decide
+  refine ⟨s', hh, by rw [hc]; rfl, fun c hcm => ?_⟩
+  obtain ⟨h1, -, h3⟩ := C07_chunk_files exConcat exCfg exSorted s' hh (by decide) (by decide) c hcm
+  exact ⟨h1, h3 (hv c (hc ▸ hcm)) _ _ exAdm⟩
+
+/-- `C07_chunks_asc` on the instance: the state reached by the seven inserts of `exSorted` (before
+    `finishChunks`) is a `Reach` state holding one merged chunk. -/
+example : ∃ s sp mg, Sorter.Reach (tot exConcat) exCfg (fun _ _ => True) s sp mg ∧
+    s.chunks = [[([1], [10, 11]), ([2], [20, 21]), ([3], [30, 31])]] ∧
+    ∀ c ∈ s.chunks, StrictAsc c := by
+  have e := Sorter.program_eq_programW (tot exConcat) exCfg exSorted false
+    (by unfold Sorter.KeySorted; decide +kernel)
+  have v : (Sorter.programW (tot exConcat) exCfg exSorted false).toOption.map (·.chunks) =
+      some [[([1], [10, 11]), ([2], [20, 21]), ([3], [30, 31])]] := by
+    decide +kernel
+  rw [← e] at v
+  cases h : Sorter.program (tot exConcat) exCfg exSorted false with
+  | error err => rw [h] at v; simp [Except.toOption] at v
+  | ok s =>
+    rw [h] at v
+    simp only [Except.toOption, Option.map_some, Option.some.injEq] at v
+    obtain ⟨sp, mg, r⟩ := inserted_reach (P := fun _ _ => True) (inserted_iff_program.mpr h)
+      (fun _ _ => trivial)
+    exact ⟨s, sp, mg, r, v, C07_chunks_asc _ r⟩
+
+/-- `C07_config_independent` on the instance: `exCfg` (three spills, one chunk merge) and
+    `exCfg2` (no spill before `finish`) return the same output. -/
+example : ∃ s₁ s₂ out t₁ t₂, Sorter.new exCfg = .ok s₁ ∧ Sorter.new exCfg2 = .ok s₂ ∧
+    runAll (tot exConcat) s₁ exKvs = .ok (out, t₁) ∧ runAll (tot exConcat) s₂ exKvs = .ok (out, t₂) :=
+  C07_config_independent_total exConcat exConcat_law exCfg exCfg2 exKvs
+    exHyps.1 exHyps.2.1 exHyps.2.2.1 exHyps.2.2.2.1 exHyps.2.2.2.2.1 exHyps.2.2.2.2.2.1
+    exHyps.2.2.2.2.2.2
+
+/-- `C07_no_trap` with a failing merge function: the run does not trap (it reports the merge
+    error). -/
+example (t : Trap) : runAll (fun k vs => if k = [2] then none else some vs.flatten) exS0 exKvs ≠
+    .error (.trap t) :=
+  C07_no_trap _ exCfg exS0 exNew exKvs exHyps.2.2.1 exHyps.2.2.2.2.2.2 t
+
+end Grenad.Props.C07
+
+section AxiomsWave3
+open Grenad.Props.C07
+#print axioms C07_runAll_eq_program
+#print axioms C07_finish_is_merge_of_chunks
+#print axioms C07_finish_state
+#print axioms C07_finish_err
+#print axioms C07_exits
+#print axioms C07_out_sizes
+#print axioms C07_chunks_asc
+#print axioms C07_chunk_shape
+#print axioms C07_chunk_files
+#print axioms C07_chunk_files_live
+#print axioms C07_chunk_files_any
+#print axioms C07_chunks_are_parts
+#print axioms C07_config_independent
+#print axioms C07_config_independent_ok
+#print axioms C07_config_independent_total
+#print axioms C07_no_trap
+#print axioms C07_returns_ok
+#print axioms C07_total
+#print axioms exTotal
+#print axioms exHanded
+end AxiomsWave3
